@@ -12,7 +12,7 @@ SPEC = {
             "(grammar, closed tree, min/max mutations, PRNG seed, strategy). distinct = distinct (grammar, input tree "
             "shape, settings, seed). Oracle: R1 validity, closedness by own walk, label/arity/id preservation at every "
             "path of the input.",
-    "minimum": {"quick": {"expansions_judged": 3000, "mutations_judged": 300, "strategy_calls": 300},
+    "minimum": {"quick": {"expansions_judged": 3000, "mutations_judged": 300, "strategy_calls": 300, "expansions_judged_in_situ": 30},
                 "thorough": {"expansions_judged": 60000, "mutations_judged": 5000}},
     "assumptions": ["R1 tree validity (islamon/ref/grammar.py)",
                     "'for every random choice' is sampled over PRNG seeds, not enumerated",
@@ -119,11 +119,29 @@ def judge_mutate(ctx, g, m, tree_l, mn, mx, seed, strategy, behind):
              sample={"kind": strategy, "input": str(inp), "output": str(out), "seed": seed, "behind_shim": behind})
 
 
+def insitu_slice(ctx, rng):
+    """fuzzer expansions requested by the solver itself (finish_unconstrained_trees, expand, repair)"""
+    from islamon import insitu
+    fam, gname, g, log = insitu.solver_workload(ctx, rng, ["expand_tree"], nsolve=3)
+    m = G(g)
+    ctx.ev()
+    for inp, out in log["expand_tree"][:60]:
+        why = check_expansion(m, inp, out, lab(inp))
+        if why:
+            ctx.violation(None, "expand_tree [in situ, called by the solver]: " + why, {"kind": "expand-in-situ", "grammar": g, "tree": to_list(inp), "out": to_list(out), "family": fam})
+        else:
+            ctx.count("expansions_judged_in_situ")
+            ctx.held(("e-insitu", gname, inp.to_string(show_open_leaves=True)[:80]))
+
+
 def run(ctx):
     from islamon.bridge import cut, eps_reencode
     rng = ctx.rng
     corpus = [g for n, g in GG.FEATURE.items()]
     while ctx.running():
+        if rng.random() < 0.04:
+            insitu_slice(ctx, rng)
+            continue
         g = rng.choice(corpus) if rng.random() < 0.5 else GG.random_grammar(rng)
         m = G(g)
         for _ in range(6):
